@@ -31,7 +31,7 @@ function drainTimers(limit = 1000) {
   return n
 }
 
-const SRC = (process.env.GE_REPO_DIR || '/repo') + '/glass-easel/src'
+const SRC = (process.env.GE_RT_ROOT || process.env.GE_REPO_DIR || '/repo') + '/glass-easel/src'
 const ge = await import(SRC + '/index.ts')
 const pgwMod = await import(SRC + '/tmpl/proc_gen_wrapper.ts')
 const dataProxyMod = await import(SRC + '/data_proxy.ts')
